@@ -16,6 +16,7 @@ from stone.ir import (
     UInt64,
     Void,
     is_alias,
+    unwrap_nullable,
     is_list_type,
     is_struct_type,
     is_map_type,
@@ -56,6 +57,9 @@ def fmt_type_name(data_type, inside_namespace=None):
     inside_namespace should be set to the namespace that the reference
     occurs in, or None if this parameter is not relevant.
     """
+    # A nullable type has no TypeScript name of its own (optionality is
+    # expressed on the property): name the type it wraps.
+    data_type, _ = unwrap_nullable(data_type)
     if is_user_defined_type(data_type) or is_alias(data_type):
         if data_type.namespace == inside_namespace:
             return data_type.name
@@ -90,6 +94,7 @@ def fmt_type(data_type, inside_namespace=None):
     inside_namespace should be set to the namespace that the type reference
     occurs in, or None if this parameter is not relevant.
     """
+    data_type, _ = unwrap_nullable(data_type)
     if is_struct_type(data_type) and data_type.has_enumerated_subtypes():
         possible_types = []
         possible_subtypes = data_type.get_all_subtypes_with_tags()
